@@ -82,6 +82,7 @@ MInit ==
      cancel  |-> None,       \* id of a cancellation-type exception that must propagate (None: none)
      cancelOn|-> FALSE,
      pollSince |-> FALSE,    \* abort_if polled since the last invoke / sleep / start
+     pollAfterRetry |-> FALSE, \* abort_if polled since the retry decision was reported
      prevApplied |-> None,   \* delay applied to the previous retry of this run
      sumSleep|-> 0, fullSleeps |-> TRUE,
      nretry  |-> 0,          \* `retry` events so far
@@ -137,7 +138,7 @@ OnPoll(c, m, ev) ==
     LET m1 == Checks(m, <<
           <<c.abort, "C13:poll-without-abort-predicate">>,
           <<~m.cancelOn, "C13:work-after-cancellation">> >>)
-    IN  [m1 EXCEPT !.pollSince = TRUE, !.abortReq = @ \/ ev.ans,
+    IN  [m1 EXCEPT !.pollSince = TRUE, !.pollAfterRetry = TRUE, !.abortReq = @ \/ ev.ans,
                    !.amb = @ \/ (ev.ans /\ m.phase = "failed" /\ m.nstrat = 0 /\ m.terminal = "-")]
 
 (***************************************************************************)
@@ -255,7 +256,8 @@ OnEmit(c, m, ev) ==
                   /\ ev.stop = "-" /\ ev.op = c.opname,
                                                      "C14:retry-tags">>,
               <<ev.ra = m.fra,                       "C14:retry-after-field">> >>)
-        IN  [m1 EXCEPT !.retried = TRUE, !.nretry = @ + 1, !.prevApplied = m.applied]
+        IN  [m1 EXCEPT !.retried = TRUE, !.nretry = @ + 1, !.prevApplied = m.applied,
+                       !.pollAfterRetry = FALSE]
     ELSE IF ev.name = "success" THEN
         LET m1 == Checks(m, <<
               <<m.terminal = "-",                    "C14:second-terminal-event">>,
@@ -293,6 +295,8 @@ OnHandler(c, m, ev) ==
           <<ev.sleep = m.applied,                    "C16:handler-delay">>,
           <<ev.sleep = m.applied,                    "C05:handler-delay">>,
           <<ev.n = m.ninv,                           "C16:handler-attempt">>,
+          <<c.abort => m.pollAfterRetry,             "C13:no-abort-poll-between-retry-decision-and-sleep">>,
+          <<c.abort => m.pollAfterRetry,             "C03:backoff-without-asking-whether-abort-is-requested">>,
           <<~m.abortReq,                             "C13:work-after-abort-request">>,
           <<~m.slept,                                "C16:handler-after-sleep">> >>)
     IN  [m1 EXCEPT !.nhandler = @ + 1, !.hdec = ev.dec]
@@ -320,6 +324,8 @@ OnSleep(c, m, ev) ==
           <<Granted(c, m) /\ m.retried,              "C03:sleep-without-permitted-retry">>,
           <<ev.s = m.applied,                        "C05:sleeper-delay">>,
           <<c.abort => m.pollSince,                  "C13:no-abort-poll-before-sleep">>,
+          <<c.abort => m.pollAfterRetry,             "C13:no-abort-poll-between-retry-decision-and-sleep">>,
+          <<c.abort => m.pollAfterRetry,             "C03:backoff-without-asking-whether-abort-is-requested">>,
           <<~m.abortReq,                             "C13:sleep-after-abort-request">>,
           <<~m.cancelOn,                             "C13:work-after-cancellation">>,
           <<c.handler => m.hdec = "sleep",           "C16:sleep-without-sleep-decision">>,
@@ -360,7 +366,11 @@ OnDeliverExec(c, m, ev) ==
     LET v  == ev.v
         m0 == DeliverCommon(c, m, ev)
         stopped == v.kind = "outcome" /\ ~v.ok
-    IN  IF v.kind # "outcome" THEN m0 ELSE
+    IN  IF v.kind = "cancel" THEN m0
+        ELSE IF v.kind # "outcome" THEN
+            \* execute() reports instead of raising
+            V(m0, FALSE, "C11:execute-raised-instead-of-returning-an-outcome")
+        ELSE
         Checks(m0, <<
           <<~m.cancelOn,                                 "C13:cancellation-swallowed">>,
           <<v.ok <=> (m.phase = "ok"),                   "C11:ok-iff-final-attempt-succeeded">>,
